@@ -14,7 +14,7 @@ void harness(void)
     xv_ctl_ghost_havoc();
     xv_ctl_g_foreign = nondet_bool(); xv_ctl_g_fev = nondet_int();
     struct ctl *ctl;
-    long e0 = xv_ctl_ep_ops;
+    unsigned long e0 = xv_ctl_ep_ops;
     remove_client(ctl, XV_IDX);
 #if XV_IDX == 0
     if (xv_ctl_ep_ops == e0 + 1) XV_CANARY("table was not full: registration deleted only");
